@@ -32,3 +32,27 @@ claim("C16",
       "(in-memory run equals native run) is not decided.",
       "trusted: spacepackets/crcmod do no file I/O for the handlers; user callbacks are user code",
       "DESIGN.md section 2 C16")
+claim("C20",
+      "abstract evaluation of the routing and inactive-EOF helpers into complete decision tables; admission outcomes read from the abstract transition systems of both handlers",
+      "The property's space is finite and is enumerated completely: 9 PDU kinds through get_packet_destination (table compared with the specification, totality, no dependence on "
+      "direction flag or mode), every state_machine(kind) edge of both handlers (kind x direction flag x reachable abstract state: routed-to-the-other-side is always refused with a "
+      "protocol exception, routed-to-me is never refused as foreign), 4 transaction-status values through acknowledge_inactive_eof_pdu (ACTIVE refused; otherwise ACK(EOF) towards the "
+      "sender with the EOF's condition code and the given status).",
+      "trusted: PDU kind model of spacepackets (PduHolder casts, directive types) in libmodel.py; id widths and CRC flag do not enter the analysed code paths (checked: never read)",
+      "DESIGN.md section 2 C20")
+claim("C14",
+      "decision tables of report_fault/set_handler by abstract evaluation; fault-callback and indication events on every edge of the abstract transition systems; declaration sites from the syntax tree",
+      "Decides that every declared condition is a key of the default table and foreign keys are refused by set_handler before any update (R1), that report_fault maps each handler code "
+      "to exactly its callback with (transaction id, condition, progress) passed through (R2), the effect of each declaration on every abstract path - cancel records the declared "
+      "condition, abandon ends idle with nothing issued from the replaced parameter block, no indication carries a null transaction id (R3) - and that one fault is reported once per "
+      "call (R4). Quick tier uses the default table, thorough tier frees every table entry over all four handler codes.",
+      "trusted: as C10; suspension is unimplemented in the library and only checked for the callback kind",
+      "DESIGN.md section 2 C14")
+claim("C15",
+      "path-sensitive gating, must-occur, ordering and origin-term rules over every indication event of the abstract transition systems (indication switches free per call)",
+      "Decides gating (each of the four gated indications occurs only on paths where its own switch was read and is true), completeness (every EOF acceptance, File Data write, EOF "
+      "emission and - via a must-analysis over the ATS - every busy-to-idle transition other than abandonment/reset carries its indication when the switch is on), causal order "
+      "(Transaction before any PDU, Transaction-Finished last / in the completion step, File-Segment-Recv only after Metadata) and parameter origin (offset/length, Metadata fields, "
+      "Finished PDU built from the same unchanged block). The originating-transaction-id rule for reserved messages is not decided.",
+      "trusted: as C10",
+      "DESIGN.md section 2 C15")
